@@ -140,6 +140,7 @@ def run(ctx):
 
     # ---------------------------------------------------------------- R4 frame balance
     check_balance(ctx, RS)
+    check_entry_beliefs(ctx, RS)
 
 
 def check_balance(ctx, RS):
@@ -232,3 +233,31 @@ def check_balance(ctx, RS):
               f'break_patches(n) inserts n frames but advances the iterator by {d_iter}; child_restored believes iter == len(stack){offset:+d}; starting from that belief the first '
               f'child\'s child_restored needs iter+{d_iter} == len+n{offset:+d}, i.e. {holds_for}: with two or more opt-in direct children (or one shared child) loads() fails with '
               'AssertionError', where=loc(bp, ins[0]))
+
+
+def check_entry_beliefs(ctx, RS):
+    """`assert not hasattr(<per-thread state>, F)` at the start of a load vs. the conditional removal of F at its end"""
+    C = RS.nested_classes.get('context')
+    if C is None or '__init__' not in C.methods:
+        raise AnalysisError('RemoteState.context not found')
+    init, ex = C.methods['__init__'], C.methods.get('__exit__')
+    ctx.used(init, ex)
+    assigned = {t.attr for st in ast.walk(init.node) if isinstance(st, ast.Assign) for t in st.targets if isinstance(t, ast.Attribute)}
+    for st in init.node.body:
+        if isinstance(st, ast.Assert):
+            t = st.test
+            if isinstance(t, ast.UnaryOp) and isinstance(t.op, ast.Not) and isinstance(t.operand, ast.Call) and is_name(t.operand.func, 'hasattr') and len(t.operand.args) == 2 \
+                    and isinstance(t.operand.args[1], ast.Constant):
+                field = t.operand.args[1].value
+                if field not in assigned:
+                    ctx.ob('R4', f'belief `{norm(st.test)}`: the field is never assigned - vacuously true', True)
+                    continue
+                okb = False
+                if ex is not None:
+                    gx = ctx.an.cfg(ex, C)
+                    dels = {n.id for n in gx.nodes if n.stmt is not None and isinstance(n.stmt, ast.Delete) and any(isinstance(x, ast.Attribute) and x.attr == field for x in n.stmt.targets)}
+                    px = gx.find_path([gx.entry], lambda n: n is gx.exit, edge_ok=is_flow, node_ok=lambda n: n.id not in dels)
+                    okb = bool(dels) and px is None
+                ctx.check('R4', f'belief `{norm(st.test)}` at the start of a load holds on every history', okb, 'RemoteState.context.__init__', f'belief-contradicted:hasattr:{field}',
+                          f'a load asserts that `{field}` does not exist when it starts, but it is only removed when the previous load succeeded: after one failed load every later '
+                          'load on that thread fails with AssertionError instead of succeeding', where=loc(init, st))
